@@ -29,6 +29,9 @@ pub use crate::types::{CommandResult, Job};
 pub trait SimKernel: Send {
     fn waitpid(&mut self, pid: i32, flags: i32) -> nix::Result<WaitStatus>;
     fn killpg(&mut self, pgid: i32, sig: i32) -> i32;
+    fn kill(&mut self, _pid: i32, _sig: i32) -> i32 {
+        0
+    }
     fn tcsetpgrp(&mut self, fd: i32, pgid: i32) -> i32;
     fn getpgid(&mut self, pid: i32) -> i32;
 }
@@ -369,6 +372,14 @@ pub mod libc_shim {
             return s.killpg(pgrp, sig);
         }
         libc::killpg(pgrp, sig)
+    }
+
+    /// (a signal sent to one simulated process must never reach a real one)
+    pub unsafe fn kill(pid: pid_t, sig: c_int) -> c_int {
+        if let Some(s) = super::SIM.lock().unwrap().as_mut() {
+            return s.kill(pid, sig);
+        }
+        libc::kill(pid, sig)
     }
 
     pub unsafe fn tcsetpgrp(fd: c_int, pgrp: pid_t) -> c_int {
